@@ -168,8 +168,16 @@ def run(ctx, res):
     res.stats = stats
     # regenerated tie: whole-function skeletons of has_contest / consistent_sampling / assign_sample_nums / mvrs_to_data /
     # set_p_values; lemmas identify their line-by-line reading with Sampling.v (coq/gen/GenProofs_sampling_skeletons.v)
-    from . import genarith
+    from . import genarith, nnm
     genarith.regenerate(ctx.pid, "sampling_skeletons", res)
+    # last clause ("measured risk non-increasing") beyond the sizes of the round histories: appended long samples on the
+    # implementation, and the regenerated tie of the statistics the monotonicity theorems are about
+    genarith.regenerate(ctx.pid, "nnm_estims", res)
+    genarith.regenerate(ctx.pid, "nnm_masks", res)
+    bad, runs = nnm.long_monotone_oracle(ctx.rng, ctx.n(18, 180))
+    res.oracle_runs += runs
+    for what, inp, obs in bad:
+        viol(res, what, inp, obs)
     res.assumptions = ["p-value monotonicity is only tested here (oracle); its theorem is C10_p_monotone over the NonnegMean model",
                        "data-prefix is claimed for card-comparison/ONEAudit contests with use_style (the threshold filter); for "
                        "POLLING or use_style=False mvrs_to_data returns the whole multi-contest sample, which is not a prefix",
